@@ -5,6 +5,7 @@ import RbV.Lemmas.TracebackScan
 import RbV.Lemmas.TracebackLongSound
 import RbV.Thm.GenSrcMyersSimple
 import RbV.Thm.GenSrcMyersTb
+import RbV.Thm.GenSrcMyersTb2
 /-!
 # C10 — Myers traceback yields valid alignments
 
@@ -514,8 +515,8 @@ example : RbV.Gen.SrcMyersSimple.step_ (w := 8) (wd := 8) (peq := [0, 0b101, 0b0
 `State::max`, as written, are the functions `Handler.moveUp`, `moveUpLeft`, `moveLeftDownIfBetter`, `finished`, `adjustDist`,
 `maxSt` of the stored-state pipeline model behind `traceback_model_sound` — every word width `w ≥ 2`; side conditions: the
 checked `dist -= 1` / `dist += 1` stay inside `DistType` (true along every traceback of a hit: `handler_reads_true_cells`).
-**Missing for the full statement**: `ShortTracebackHandler::new` / `move_to_left` (the iterator chain over the ring),
-`State::adjust_by_mask` (`count_ones`), `Traceback::{new, add_state, traceback_at, _traceback_at}` (generic over the handler
+`ShortTracebackHandler::new` / `move_to_left` and `State::adjust_by_mask` are the next three theorems.
+**Missing for the full statement**: `Traceback::{new, add_state, traceback_at, _traceback_at}` (generic over the handler
 traits; the loop with `break`), hence also the corollary `traceback_source_sound` and everything of `LongTracebackHandler` — these
 stay tied by the mirror model + `tb-state-model-same` on every sampled search. -/
 theorem traceback_source_eq_model_partial (w wd : Nat) (h : RbV.Model.MyersTraceback.Handler w) (hw : 1 < w) (adj : Bool)
@@ -550,6 +551,55 @@ theorem adjust_dist_source_eq_model (w wd : Nat) (s : RbV.Model.MyersSimple.St w
     RbV.Gen.SrcMyersTbState.adjustDist (w := w) (wd := wd) (pv := s.pv.toNat) (mv := s.mv.toNat) (dist := s.dist)
         (pos_mask := pm.toNat) = RbV.Rs.Res.ok (RbV.Model.MyersTraceback.adjustDist s pm).dist :=
   RbV.Thm.GenSrcMyersTb.adjustDist_eq_model w wd s pm hlo hhi
+
+/-- **`State::adjust_by_mask(mask)`, as written** (`count_ones`, `u64` wrapping arithmetic, `from_u64(..).unwrap()`) = the model's
+`adjustByMask` when the result neither underflows nor leaves `DistType` (`adjustByMask_spec` of `Lemmas/TracebackState.lean`
+shows that along a traceback) -/
+theorem adjust_by_mask_source_eq_model (w wd : Nat) (s : RbV.Model.MyersSimple.St w) (mask : BitVec w) (hwd : wd ≤ 64)
+    (hlo : RbV.Model.MyersTraceback.popc (s.pv &&& mask) ≤ s.dist + RbV.Model.MyersTraceback.popc (s.mv &&& mask))
+    (hhi : s.dist + w < 2 ^ wd) :
+    RbV.Gen.SrcMyersTbMask.adjustByMask (w := w) (wd := wd) (pv := s.pv.toNat) (mv := s.mv.toNat) (dist := s.dist)
+        (mask := mask.toNat) = RbV.Rs.Res.ok (RbV.Model.MyersTraceback.adjustByMask s mask).dist :=
+  RbV.Thm.GenSrcMyersTb2.adjustByMask_eq_model w wd s mask hwd hlo hhi
+
+/-- **the column reader of the handler reads the ring as the model says**: the `k`-th `next()` of
+`states[..=pos].iter().rev().chain(states.iter().rev().cycle())` (semantics `Rs.RevCyc`: first part, then the second repeated)
+yields slot `readSlot N pos k` — the `rd k = readStore store pos k` of `ring_read_any` / `ring_lookup_correct` -/
+theorem ring_reader_source_reads_slot {α : Type} (store : List α) (pos k : Nat) (hp : pos < store.length) :
+    RbV.Rs.rcNext (RbV.Thm.GenSrcMyersTb2.itOf store pos k) =
+      (store[RbV.Model.MyersTraceback.readSlot store.length pos k]?, RbV.Thm.GenSrcMyersTb2.itOf store pos (k + 1)) :=
+  RbV.Thm.GenSrcMyersTb2.rcNext_slot store pos k hp
+
+/-- **`ShortTracebackHandler::new(m, pos, states)` and `move_to_left()`, as written** = `Handler.new m rd` and
+`Handler.moveToLeft rd` of the pipeline model, `rd k = readStore store pos k` -/
+theorem traceback_handler_new_move_to_left_source_eq_model (w wd m pos : Nat) (store : List (RbV.Model.MyersSimple.St w))
+    (h : RbV.Model.MyersTraceback.Handler w) (hm1 : 1 ≤ m) (hmw : m ≤ w) (hm64 : m < 2 ^ 64) (hwd : wd ≤ 64)
+    (hp : pos < store.length)
+    (hlo : RbV.Model.MyersTraceback.popc ((RbV.Model.MyersTraceback.readStore store pos h.taken).pv &&& h.leftMask) ≤
+      (RbV.Model.MyersTraceback.readStore store pos h.taken).dist +
+        RbV.Model.MyersTraceback.popc ((RbV.Model.MyersTraceback.readStore store pos h.taken).mv &&& h.leftMask))
+    (hhi : (RbV.Model.MyersTraceback.readStore store pos h.taken).dist + w < 2 ^ wd) :
+    RbV.Gen.SrcMyersTbShort2.new (w := w) (wd := wd) (m := m) (pos := pos) (states := RbV.Thm.GenSrcMyersLongStep.repS store) =
+      RbV.Rs.Res.ok (RbV.Thm.GenSrcMyersSimple.rep (RbV.Model.MyersTraceback.Handler.new m (RbV.Model.MyersTraceback.readStore store pos)).state,
+        RbV.Thm.GenSrcMyersSimple.rep (RbV.Model.MyersTraceback.Handler.new m (RbV.Model.MyersTraceback.readStore store pos)).left,
+        RbV.Thm.GenSrcMyersTb2.itOf (RbV.Thm.GenSrcMyersLongStep.repS store) pos 2,
+        (RbV.Model.MyersTraceback.Handler.new m (RbV.Model.MyersTraceback.readStore store pos)).maxMask.toNat,
+        (RbV.Model.MyersTraceback.Handler.new m (RbV.Model.MyersTraceback.readStore store pos)).pos.toNat,
+        (RbV.Model.MyersTraceback.Handler.new m (RbV.Model.MyersTraceback.readStore store pos)).leftMask.toNat) ∧
+    RbV.Gen.SrcMyersTbShort2.moveToLeft (w := w) (wd := wd) (state := RbV.Thm.GenSrcMyersSimple.rep h.state)
+        (left_state := RbV.Thm.GenSrcMyersSimple.rep h.left)
+        (states_iter := RbV.Thm.GenSrcMyersTb2.itOf (RbV.Thm.GenSrcMyersLongStep.repS store) pos h.taken)
+        (max_mask := h.maxMask.toNat) (pos_bitvec := h.pos.toNat) (left_mask := h.leftMask.toNat) =
+      RbV.Rs.Res.ok (RbV.Thm.GenSrcMyersSimple.rep (h.moveToLeft (RbV.Model.MyersTraceback.readStore store pos)).state,
+        RbV.Thm.GenSrcMyersSimple.rep (h.moveToLeft (RbV.Model.MyersTraceback.readStore store pos)).left,
+        RbV.Thm.GenSrcMyersTb2.itOf (RbV.Thm.GenSrcMyersLongStep.repS store) pos
+          (h.moveToLeft (RbV.Model.MyersTraceback.readStore store pos)).taken) :=
+  ⟨RbV.Thm.GenSrcMyersTb2.new_eq_model w wd m pos store hm1 hmw hm64 hp,
+   RbV.Thm.GenSrcMyersTb2.moveToLeft_eq_model w wd pos store h hwd hp hlo hhi⟩
+
+example : RbV.Gen.SrcMyersTbMask.adjustByMask (w := 8) (wd := 8) (pv := 0b0111) (mv := 0b1000) (dist := 3) (mask := 0b1110) =
+    RbV.Rs.Res.ok 2 := by decide
+example : (RbV.Rs.rcNext (RbV.Thm.GenSrcMyersTb2.itOf [10, 11, 12, 13] 1 3)).1 = some 12 := by decide
 
 -- non-vacuity: `u8` handler at row 3 of a 3-symbol pattern (`pos = 0b100`): `move_up(true)` over a set `pv` bit, and the
 -- panic outside the side condition (`dist = 0`)
